@@ -114,6 +114,9 @@ type Engine struct {
 	// commit). After a reopen the file may legitimately show it when the failure was the final sync.
 	Attempts []State
 
+	// LastID: the page id the last operation with a logical page index resolved to
+	LastID uint64
+
 	// Dead: the File lost its memory mapping (a remap failed); nothing can be done with it any more
 	Dead bool
 
@@ -302,7 +305,8 @@ func (e *Engine) pick(p int) (uint64, bool) {
 	if p < 0 {
 		p = -p
 	}
-	return ids[p%len(ids)], true
+	e.LastID = ids[p%len(ids)]
+	return e.LastID, true
 }
 
 // expected content of page id inside the running tx; ok=false when the page
